@@ -4,6 +4,7 @@ go 1.17
 
 require (
 	github.com/MinterTeam/minter-go-node v0.0.0
+	github.com/MinterTeam/node-grpc-gateway v1.6.2-0.20220413090743-53ffbb191668
 	github.com/cosmos/cosmos-sdk v0.44.5
 	github.com/google/btree v1.0.0
 	github.com/tendermint/go-amino v0.16.0
@@ -29,6 +30,7 @@ require (
 	github.com/google/orderedcode v0.0.1 // indirect
 	github.com/gorilla/websocket v1.5.0 // indirect
 	github.com/grpc-ecosystem/grpc-gateway v1.16.0 // indirect
+	github.com/grpc-ecosystem/grpc-gateway/v2 v2.10.0 // indirect
 	github.com/gtank/merlin v0.1.1 // indirect
 	github.com/lib/pq v1.10.4 // indirect
 	github.com/libp2p/go-buffer-pool v0.0.2 // indirect
